@@ -186,6 +186,16 @@ def analyse_method(run, m, F, E, L, f, rule_prefix='R05', fork_bad_alloc=False):
                         problems.append(('leak', 'destructor does not release the heap block it owns'))
                 else:
                     value_clauses(I, o, f, L, kind, info, scen, problems, undecided)
+            # a private helper is a step of an operation: it may leave the object in an intermediate state that its public callers
+            # repair; the callers are analysed with the helper interpreted in place, here its findings are only noted
+            if problems and getattr(f, 'access', 'public') != 'public' and not (is_ctor(f) or is_dtor(f)):
+                undecided = list(undecided) + ['%s (private helper: judged through its public callers)' % p[1][:160] for p in problems[:2]]
+                problems = []
+            from .common import abstract_atoms
+            soft = [p for p in problems if abstract_atoms(p[1])]
+            if soft:
+                problems = [p for p in problems if not abstract_atoms(p[1])]
+                undecided = list(undecided) + ['%s (depends on an abstracted value, not a witness)' % p[1][:160] for p in soft[:2]]
             # classify
             inv_p = [p for p in problems if p[0] not in ('size', 'content')]
             val_p = [p for p in problems if p[0] in ('size', 'content')]
